@@ -10,6 +10,7 @@ import (
 	"hop.computer/hop/certs"
 	"hop.computer/hop/hopserver"
 	"hop.computer/hop/keys"
+	"hop.computer/hop/kravatte"
 	"hop.computer/hop/transport"
 	"hopverif/hs"
 	. "hopverif/hvlib"
@@ -26,6 +27,8 @@ import (
 //	sni <kind>                       a ClientAck naming empty|one|long|binary|star|dns|other  -> ok
 //	r <len> <type> <seed>            random bytes                                             -> ok
 //	cj <s0|s1|est> <len> <type>      junk delivered to a client that is in that state        -> ok
+//	half <zerokey|randkey|junk|control-zerokey> <len>   a half-open session (ClientAck accepted, keys not yet
+//	                                 derived) receives a datagram naming it, sealed that way  -> ok
 //	probe                            fresh honest handshake + data on every established session -> hs=1 est=k/k
 //
 // A panic in an endpoint goroutine kills the harness process; the runner records `<crash>`.
@@ -98,6 +101,10 @@ func gen(g *GenCtx) {
 			case k < 17:
 				g.Op("r %d %d %d", Pick(r, []int{0, 1, 3, 4, 5, 8, 20, 36, 48, 820, 852, 1172, 1700, 4000, 65000}),
 					Pick(r, []int{1, 2, 3, 4, 5, 8, 9, 16, 128, 0x7f, 0xff}), r.Intn(1000))
+			case k < 18 && !hidden:
+				// a session that exists but has no keys yet (ClientAck accepted, ClientAuth pending):
+				// datagrams naming it, sealed under the all-zero key, a random key, or not at all
+				g.Op("half %s %d", Pick(r, []string{"zerokey", "randkey", "junk", "control-zerokey"}), Pick(r, []int{0, 1, 32, 100}))
 			case k < 19:
 				g.Op("cj %s %d %d", Pick(r, []string{"s0", "s1", "est"}), Pick(r, []int{0, 3, 4, 8, 36, 47, 48, 100, 852, 900, 2000}),
 					Pick(r, []int{2, 4, 9, 16, 128, 1, 0x7f}))
@@ -409,6 +416,47 @@ func (w *world) exec(f []string) string {
 			return "panic"
 		}
 		return res
+	case len(f) == 3 && f[0] == "half":
+		if w.hidden {
+			return "ok"
+		}
+		cl := w.clientFor(0, certs.RawStringName(w.vh[0].name))
+		w.junkCl = append(w.junkCl, cl)
+		cl.Start()
+		for _, x := range cl.Conn.Drain() {
+			w.sv.Deliver(x.Data, cl.Local)
+		}
+		for _, x := range w.sv.Conn.Drain() {
+			cl.Deliver(x.Data, tnet.ServerAddr)
+		}
+		for _, x := range cl.Conn.Drain() { // the ClientAck
+			w.sv.Deliver(x.Data, cl.Local)
+		}
+		auth := w.sv.Conn.Drain() // ServerAuth: its header shows the new session's identifier
+		if len(auth) != 1 || len(auth[0].Data) < 8 {
+			return "no-half-open-session"
+		}
+		var key [16]byte
+		if f[1] == "randkey" {
+			copy(key[:], tnet.Stream(uint64(num(f[2])+77), 16))
+		}
+		mt := byte(16)
+		if f[1] == "control-zerokey" {
+			mt = 128
+		}
+		body := tnet.Stream(uint64(num(f[2])), num(f[2])+8)[:num(f[2])]
+		hdr := []byte{mt, 0, 0, 0, auth[0].Data[4], auth[0].Data[5], auth[0].Data[6], auth[0].Data[7], 0, 0, 0, 0, 0, 0, 0, 0}
+		var d []byte
+		if f[1] == "junk" {
+			d = append(hdr, tnet.Stream(uint64(num(f[2])+5), num(f[2])+40)[:num(f[2])+32]...)
+		} else {
+			aead, err := kravatte.NewSANSE(key[:])
+			if err != nil {
+				return "bad-op"
+			}
+			d = append(hdr, aead.Seal(nil, nil, body, hdr)...)
+		}
+		return w.sv.Deliver(d, tnet.Addr(92))
 	case len(f) == 1 && f[0] == "probe":
 		cl, h := w.honest(0)
 		ok := 0
